@@ -164,7 +164,12 @@ func VerifH_C13_banPeerOrder() {
 	sp := &ServerPeer{Peer: &peer.Peer{}, server: s}
 	vpPeerSet(sp.Peer, "Addr", addr)
 	vpPeerSet(sp.Peer, "ID", int32(3))
-	state.outboundPeers[3] = sp
+	// the misbehaving peer may have dropped its connection before its
+	// misbehaviour is judged (a queued response): the ban must be recorded all the same
+	gone := vpParam("departed", 1) == 1 && vpRange("peerAlreadyGone", 0, 1) == 1
+	if !gone {
+		state.outboundPeers[3] = sp
+	}
 	quit := make(chan struct{})
 	go func() {
 		for {
@@ -185,11 +190,15 @@ func VerifH_C13_banPeerOrder() {
 	}}
 	err := s.BanPeer(addr, banman.InvalidFilterHeader)
 	vpQuiesce()
-	vpReach("connected-peer-banned")
 	vpAssert(err == nil, "ban-peer-ok")
 	vpAssert(!droppedBeforeBan, "peer-not-dropped-before-its-ban-is-on-record")
 	vpAssert(s.IsBanned(addr), "banned-after-ban-peer")
-	vpAssert(vpPeerDisconnects(sp.Peer) > 0, "banned-peer-disconnected")
+	if gone {
+		vpReach("departed-peer-banned")
+	} else {
+		vpReach("connected-peer-banned")
+		vpAssert(vpPeerDisconnects(sp.Peer) > 0, "banned-peer-disconnected")
+	}
 	ipNet, _ := banman.ParseIPNet(addr, nil)
 	st, err2 := s.banStore.Status(ipNet)
 	vpAssert(err2 == nil && st.Banned && st.Reason == banman.InvalidFilterHeader, "ban-recorded-with-its-reason")
